@@ -80,7 +80,7 @@ func cmdCheck(args []string) int {
 	only := fs.String("harness", "", "run only this harness")
 	verbose := fs.Bool("v", false, "verbose")
 	noReplay := fs.Bool("noreplay", false, "skip native replay / validation")
-	jobs := fs.Int("j", 8, "parallel harnesses")
+	jobs := fs.Int("j", 16, "parallel harnesses")
 	fs.Parse(args)
 	t0 := time.Now()
 	seed := 0
